@@ -74,7 +74,7 @@ class Read:
             m = rng.choice(srcs)
             for c in m.generate(rng, 20, tier, new_stats()):
                 if 'ops' not in c: continue
-                o = c['ops'][0]
+                o = c['ops'][-1]       # (a c01 case may start with a query step)
                 if o[0] != 'get' or o[5] != 'label' or not nc_ok_array(c['ins'][0]): continue
                 a = c['ins'][0]
                 # longer list indices in scrambled order (3 or more positions, repeats): the order of the fetched rows matters
@@ -95,6 +95,13 @@ class Read:
                 fmt = rng.choice(['NETCDF4', 'NETCDF4', 'NETCDF3_CLASSIC'])
                 if fmt != 'NETCDF4' and 'O' in a['axdtype']: fmt = 'NETCDF4'
                 via = rng.choice(['handle', 'handle', 'read_nc', 'dataset_read', 'file_read'])
+                if len(a['dims']) >= 2 and all(len(l) > 0 for l in a['labels']) and rng.random() < 0.08:
+                    # indices for ONE axis that is NOT the first, named by axis= (position or name), through read_nc(f, name, ...) and
+                    # the dataset handle: the axis must reach the variable
+                    k_ = rng.randrange(1, len(a['dims'])); labs_ = a['labels'][k_]
+                    ix_ = {'s': rng.choice(labs_)} if rng.random() < 0.5 else {'l': [rng.choice(labs_) for _ in range(rng.randint(1, 2))]}
+                    o = ['get', 'take', {'axis': [k_ if rng.random() < 0.5 else a['dims'][k_], ix_]}, None, False, 'label']
+                    via = rng.choice(['read_nc', 'read_nc', 'dataset_read']); stats['read_axis_not_first'][via] += 1
                 # the file may hold, before 'v', a variable over the same dimensions in the REVERSE order: the file's dimension order
                 # then differs from v's own, and a read through the dataset (a list of names) must still index v by dimension NAME
                 if isinstance(o[2], dict) and 'axis' in o[2] and rng.random() < 0.6: via = rng.choice(['read_nc', 'read_nc', 'dataset_read'])      # indices for ONE axis, named by axis=
